@@ -95,6 +95,8 @@ pub struct Session {
     /// trip `debug_assert!(success)` inside a destructor (abort on a second panic) - the case ends here
     /// and nothing of this sender is ever dropped
     tainted: std::cell::Cell<bool>,
+    /// TOIs of live objects that carry a handle of another sender (accepted by add_object)
+    foreign: BTreeSet<u128>,
     /// number of live TOIs, published before every call that may not return
     live_count: Arc<AtomicU64>,
 }
@@ -104,6 +106,7 @@ impl Session {
         Session {
             live_count,
             tainted: std::cell::Cell::new(false),
+            foreign: BTreeSet::new(),
             sender: None,
             bits: 16,
             tsi: 0,
@@ -126,7 +129,7 @@ impl Session {
         self.cur = None;
     }
 
-    fn make_sender(&mut self, init: Option<u128>) {
+    fn build_sender(&self, init: Option<u128>) -> Sender {
         let cfg = Config {
             toi_max_length: width(self.bits).unwrap(),
             toi_initial_value: init,
@@ -135,7 +138,11 @@ impl Session {
         };
         let oti = Oti::new_no_code(1024, 64);
         let ep = UDPEndpoint::new(None, "224.0.0.1".to_owned(), 1234);
-        self.sender = Some(Sender::new(ep, self.tsi, &oti, &cfg));
+        Sender::new(ep, self.tsi, &oti, &cfg)
+    }
+
+    fn make_sender(&mut self, init: Option<u128>) {
+        self.sender = Some(self.build_sender(init));
     }
 
     /// TOIs the property calls live: reserved handles and objects that can still emit packets
@@ -152,7 +159,14 @@ impl Session {
             o.fail("toi-width", &format!("allocated TOI {} does not fit the configured {} bits", v, self.bits));
         }
         if live.contains(&v) {
-            o.fail("toi-dup-live", &format!("allocated TOI {} is still reserved / attached to a live object", v));
+            if self.foreign.contains(&v) {
+                o.fail(
+                    "foreign-handle-collision",
+                    &format!("allocated TOI {} is the TOI of a live object that carries a handle of another sender", v),
+                );
+            } else {
+                o.fail("toi-dup-live", &format!("allocated TOI {} is still reserved / attached to a live object", v));
+            }
             self.tainted.set(true);
         }
     }
@@ -246,6 +260,11 @@ impl Session {
             Err(loc) => {
                 if loc.contains("toiallocator") {
                     o.fail("alloc-panic", &format!("add_object panics at {}", loc));
+                } else if !self.foreign.is_empty() && loc.contains("sender/fdt.rs") {
+                    o.fail(
+                        "foreign-handle-collision",
+                        &format!("add_object panics at {} while an object carrying a handle of another sender is live (duplicate TOI in Fdt.files)", loc),
+                    );
                 }
                 self.dead = true;
                 self.leak();
@@ -321,6 +340,10 @@ impl Session {
         if self.tainted.get() && !self.dead {
             self.dead = true;
             self.leak();
+        }
+        if !self.foreign.is_empty() {
+            let objs = &self.objs;
+            self.foreign.retain(|t| objs.values().any(|v| v == t));
         }
         self.live_count.store(self.live().len() as u64, Ordering::SeqCst);
         let t: Vec<&str> = op.split(' ').collect();
@@ -527,6 +550,53 @@ impl Session {
                     _ => return "bad-op".to_string(),
                 };
                 self.add(k, t[1] == "addfail", None, o)
+            }
+            ("addforeign", 4) => {
+                // a `Toi` handle reserved on ANOTHER sender (same configuration, start value v) is attached
+                // to an object that is added to THIS sender.  The type system allows it; the handle's value
+                // is unknown to this sender's allocator.
+                let k = match num(2) {
+                    Some(k) if !self.objs.contains_key(&k) => k,
+                    _ => return "bad-op".to_string(),
+                };
+                let v = match t.get(3).and_then(|x| x.parse::<u128>().ok()) {
+                    Some(v) => v,
+                    None => return "bad-op".to_string(),
+                };
+                let mut other = self.build_sender(Some(v));
+                let h = other.allocate_toi();
+                let fv = h.get();
+                let live = self.live();
+                let obj = self.object(false, Some(h));
+                let sender = self.sender.as_mut().unwrap();
+                match guarded(AssertUnwindSafe(|| sender.add_object(0, obj))) {
+                    Ok(Err(_)) => "ERR".to_string(),
+                    Ok(Ok(tv)) => {
+                        // accepted: this sender now has a live object whose TOI its allocator does not know
+                        if live.contains(&tv) {
+                            o.fail(
+                                "foreign-handle-collision",
+                                &format!("add_object accepted a handle of another sender with TOI {} which is live in this sender", tv),
+                            );
+                            self.tainted.set(true);
+                        }
+                        self.foreign.insert(tv);
+                        self.objs.insert(k, tv);
+                        format!("toi {}", tv)
+                    }
+                    Err(loc) => {
+                        if live.contains(&fv) {
+                            o.fail(
+                                "foreign-handle-collision",
+                                &format!("add_object with a handle of another sender (TOI {}, live in this sender) panics at {}", fv, loc),
+                            );
+                        }
+                        self.dead = true;
+                        self.leak();
+                        std::mem::forget(other);
+                        "PANIC".to_string()
+                    }
+                }
             }
             ("addx", 4) | ("addxfail", 4) => {
                 let k = match num(2) {
